@@ -326,6 +326,16 @@ func TestC05(t *testing.T) {
 		c.OnReplay("control", func(s *Sub, rp *Replay) { c.c05Program(s, "replay", rp.Source, true) })
 		c.ReplayTier()
 
+		c.Sub("scale", func(s *Sub) {
+			if c.Shard != 0 {
+				return
+			}
+			c.stepOverride = 40000000
+			defer func() { c.stepOverride = 0 }()
+			for _, n := range c.scaleSizes([]int{1000, 4096, 10000}, []int{65536, 100000, 300000}) {
+				c.c05Program(s, "scale", scaleLoops(n), true)
+			}
+		})
 		c.Sub("stray-signals", func(s *Sub) {
 			if c.Shard != 0 {
 				return
